@@ -38,6 +38,7 @@ import (
 	"github.com/siglens/siglens/pkg/hooks"
 	"github.com/siglens/siglens/pkg/retention"
 	segmetadata "github.com/siglens/siglens/pkg/segment/metadata"
+	"github.com/siglens/siglens/pkg/segment/query"
 	pqsmeta "github.com/siglens/siglens/pkg/segment/query/pqs/meta"
 	"github.com/siglens/siglens/pkg/segment/structs"
 	"github.com/siglens/siglens/pkg/segment/writer"
@@ -184,6 +185,7 @@ func retInit() string {
 			return true, nil
 		}
 		pqsmeta.InitPqsMeta()
+		query.VerifFreezeMetaRefresh()
 	}
 	return config.GetCurrentNodeIngestDir()
 }
@@ -367,9 +369,10 @@ func retWaitUntil(tStar int64) {
 // runTimedPass builds the state for an instant T* slightly in the future, waits for it and runs the real pass.
 // Returns the observation, H* (horizon at T*), the horizon at return time, and whether the probes confirm T*.
 func retRunTimedPass(ing string, segs []*rseg, nowV int64, hours int, hv uint64, before func(all []*rseg)) (obs retObs, hStar, hEnd uint64, all []*rseg, status string) {
-	for attempt := 0; attempt < 8; attempt++ {
+	for attempt := 0; attempt < 40; attempt++ {
 		retReset(ing)
-		tStar := time.Now().UnixMilli() + retLeadMs
+		tBuild := time.Now()
+		tStar := tBuild.UnixMilli() + retLeadMs
 		hStar = retention.GetRetentionTimeMs(hours, time.UnixMilli(tStar))
 		if !retMap(segs, hv, hStar, nowV, tStar) {
 			return obs, hStar, hStar, segs, "unmappable"
@@ -385,7 +388,7 @@ func retRunTimedPass(ing string, segs []*rseg, nowV int64, hours int, hv uint64,
 			before(all)
 		}
 		if slack := tStar - time.Now().UnixMilli(); slack <= 0 { // the build took longer than planned
-			retLeadMs += 4
+			retLeadMs = 2*time.Since(tBuild).Milliseconds() + 4
 			continue
 		} else if slack > 3 && retLeadMs > 3 {
 			retLeadMs--
@@ -405,7 +408,17 @@ func retRunTimedPass(ing string, segs []*rseg, nowV int64, hours int, hv uint64,
 			// the pass ran at or after T*, yet a segment whose newest event is exactly at the horizon of T* survived
 			return obs, hStar, hEnd, all, "probe-kept"
 		}
-		// both probes gone: the pass read a later clock value; rebuild and repeat
+		// both probes gone: the pass read a later clock value (between T* and the reading behind hEnd).
+		// If no segment of the case lies in that window the outcome does not depend on which; else repeat.
+		sensitive := false
+		for _, s := range segs {
+			if s.realMs() > hStar && s.realMs() <= hEnd {
+				sensitive = true
+			}
+		}
+		if !sensitive {
+			return obs, hStar, hEnd, all, "ok"
+		}
 	}
 	return obs, hStar, hEnd, all, "clock-unstable"
 }
@@ -1079,11 +1092,12 @@ func execRetE2E(line string) Result {
 		segs = append(segs, &e2eSeg{key: k, off: off, count: int(c)})
 	}
 	bootEngine()
+	query.VerifFreezeMetaRefresh()
 	ing := config.GetCurrentNodeIngestDir()
 	tsKey := config.GetTimeStampKey()
 	var stack [64]byte
 	res := Result{}
-	for attempt := 0; attempt < 5; attempt++ {
+	for attempt := 0; attempt < 8; attempt++ {
 		lead := retE2ELead
 		tBuild := time.Now()
 		retE2ESeq++
@@ -1162,7 +1176,16 @@ func execRetE2E(line string) Result {
 		if listed[p0.segkey] {
 			res.Fails = append(res.Fails, PropFail{Sig: "retention/time-kept-expired", Msg: fmt.Sprintf("e2e: a real segment whose newest event is exactly at the horizon %d survived a pass that ran at or after that instant", hStar)})
 		} else if !listed[p1.segkey] {
-			continue // the pass read a later clock value: repeat with fresh indexes
+			// the pass read a later clock value; repeat with fresh indexes if the outcome could depend on it
+			sensitive := false
+			for _, s := range segs {
+				if s.latest > hStar && s.latest <= hEnd {
+					sensitive = true
+				}
+			}
+			if sensitive {
+				continue
+			}
 		}
 		var del []uint64
 		var hits []string
